@@ -85,15 +85,16 @@ def guarded_run(mod, case, timeout):
     return out
 
 
+_CASES = None  # materialised in the parent before the pool forks; chunks refer to it by index
+_T0 = None
+
+
 def _worker(args):
-    modname, tier, k, n, seed, timeout, budget = args
+    modname, tier, lo, hi, seed, timeout, budget = args
     os.environ.setdefault("MPLBACKEND", "agg")
     mod = importlib.import_module(modname)
-    t0 = time.time()
-    mine = [c for i, c in enumerate(mod.cases(tier)) if i % n == k]
-    if mine and seed:
-        r = seed % len(mine)
-        mine = mine[r:] + mine[:r]
+    t0 = _T0 or time.time()
+    mine = _CASES[lo:hi]
     agg = dict(evaluations=0, states=0, transitions=0, traces=0, digests=set(), outcomes=set(), violations=[], counters={}, samples=[], capped=False, n_viol=0, error=None)
     best = None
     try:
@@ -196,13 +197,38 @@ def main(argv=None):
     jobs = max(1, args.jobs)
     njobs = getattr(mod, "MAX_JOBS", jobs)
     jobs = min(jobs, njobs)
-    ctx = mp.get_context("fork")
-    work = [(modname, args.tier, k, jobs, seed, timeout, args.budget) for k in range(jobs)]
+    global _CASES, _T0
+    _CASES = list(mod.cases(args.tier))
+    _T0 = time.time()
+    if _CASES and seed:
+        # VERIF_SEED only rotates the visiting order: the same set of cases is explored
+        r = (seed * 7919) % len(_CASES)
+        _CASES = _CASES[r:] + _CASES[:r]
+    nchunks = max(1, min(len(_CASES), jobs * 12))
+    step = -(-len(_CASES) // nchunks) if _CASES else 1
+    work = [(modname, args.tier, lo, min(lo + step, len(_CASES)), seed, timeout, args.budget) for lo in range(0, len(_CASES), step)]
     if jobs == 1:
-        results = [_worker(work[0])]
+        results = [_worker(w_) for w_ in work]
     else:
-        with ctx.Pool(jobs) as pool:
-            results = pool.map(_worker, work)
+        import multiprocessing.pool as mpp
+
+        ctx = mp.get_context("fork")
+
+        class _NoDaemonProcess(ctx.Process):
+            # checks may start real worker pools themselves (C17 binds its virtual pool to a real one)
+            @property
+            def daemon(self):
+                return False
+
+            @daemon.setter
+            def daemon(self, value):
+                pass
+
+        class _Ctx(type(ctx)):
+            Process = _NoDaemonProcess
+
+        with mpp.Pool(jobs, context=_Ctx()) as pool:
+            results = list(pool.imap_unordered(_worker, work, chunksize=1))
 
     errors = [r["error"] for r in results if r["error"]]
     tot = dict(evaluations=0, states=0, transitions=0, traces=0, n_viol=0)
